@@ -29,7 +29,7 @@ static void Body(Tape& t, Outcome& o) {
     for (int k = si.firstOut; k < si.firstOut + si.numOut; ++k) {
       const Manifold& m = pool.v[k].m;
       oracle::TopoReport r = oracle::CheckManifold(m);
-      if (!r.ok && (r.sig == "topo:unreferenced-vert" || r.sig == "topo:numvert-mismatch") && (si.op == "RefineToLength" || si.op == "RefineToTolerance") && !si.inputs.empty() && pool.v[si.inputs[0]].tangents) {
+      if (!r.ok && (r.sig == "topo:unreferenced-vert" || r.sig == "topo:numvert-mismatch" || r.sig == "topo:duplicate-edge") && (si.op == "RefineToLength" || si.op == "RefineToTolerance") && !si.inputs.empty() && pool.v[si.inputs[0]].tangents) {
         // known finding F16 (see known_findings.json): class excluded, counted
         o.known("F16-refine-stranded-vertex", "topo:unreferenced-vert", r.msg);
         return;
